@@ -91,6 +91,12 @@ class Arr(list):
     def __sub__(self, o):
         return Arr([x - o for x in self])
 
+    def __rsub__(self, o):
+        return Arr([o - x for x in self])
+
+    def __abs__(self):
+        return Arr([abs(x) for x in self])
+
 
 class FakeNP:
     """the subset of numpy that read_aurel_data / save_data / the read cache touch"""
